@@ -134,6 +134,12 @@ struct RawRead {
 };
 extern std::vector<RawRead> g_reads;
 extern bool g_capture_reads;
+// decoder events captured by hook H4 (raw addresses)
+struct RawDecode {
+    char kind; // f fetch of a 16-bit word, s store of a v-table cell, t store of a dispatch-table cell
+    const void* addr;
+};
+extern std::vector<RawDecode> g_decode;
 
 enum class Route { resolve, call };
 
@@ -169,6 +175,9 @@ struct IRunner {
     virtual std::string write_offsets() = 0;   // runs the real generator, returns JSON fields
     virtual bool load_offsets(int m, int which, int idx, int delta, std::string& json) = 0;
     virtual bool callable(int m) = 0;
+    // ---- encoded dispatch data (C13): encode the last update's result with the real generator, lay the
+    // emitted data out, forget the installed tables and run the real decoder on it
+    virtual std::string encode_decode() = 0; // returns one or two complete JSON events (newline separated), or ""
     // ---- virtual_ptr handles (C09 / C15)
     // node k of the C++ chain Node<0..3> stands for spec class c (its static id); before registering c
     virtual bool map_node(int k, int c) = 0;
